@@ -179,6 +179,14 @@ func c19SLRun(x *h.Ctx, c c19SLCase) {
 				body = c19SLList(e, "", false)
 			case "enc-huge":
 				body = c19SLList(e, c19SLEncoded(make([]byte, 8<<20)), false) // 8 MiB of zeros: a few KB compressed
+			case "enc-bomb64", "enc-bomb256":
+				// not generated (the statement is about panics and non-termination, not memory): for measuring by hand what a
+				// small list that expands to 64 / 256 MiB costs; expand() has no limit on the decompressed size
+				n := 64 << 20
+				if s.Answer == "enc-bomb256" {
+					n = 256 << 20
+				}
+				body = c19SLList(e, c19SLEncoded(make([]byte, n)), false)
 			case "enc-badb64":
 				body = c19SLList(e, "!!!not base64!!!", false)
 			case "enc-notgzip":
